@@ -50,6 +50,11 @@ def oracle (name : String) (ts : List String) : Option Bool :=
       let (nm, ts) ← pTok ts; let (pw, ts) ← pNat ts
       let (m, ts) ← pB ts; let (o, _) ← pB ts
       pure (decide (WeldSpec ⟨3, nm⟩ (fun x => weldKey pw (unbits x)) m o))
+  | "split_spec" => do
+      let (m, ts) ← pB ts
+      let (n, ts) ← pNat ts
+      let (parts, _) ← pMany pB n ts
+      pure (decide (SplitSpec m parts))
   | "same_mesh" => do
       let (m, ts) ← pB ts; let (o, _) ← pB ts
       pure (decide (m = o))
